@@ -387,6 +387,38 @@ def split_sessions(lines):
     return out
 
 
+def _sal_collect(x, acc):
+    if isinstance(x, dict):
+        for k, v in x.items():
+            if k == "sal" and isinstance(v, int) and not isinstance(v, bool):
+                acc.add(v)
+            else:
+                _sal_collect(v, acc)
+    elif isinstance(x, list):
+        for v in x:
+            _sal_collect(v, acc)
+
+
+def _sal_map(x, m):
+    if isinstance(x, dict):
+        return {k: (m[v] if k == "sal" and isinstance(v, int) and not isinstance(v, bool) else _sal_map(v, m)) for k, v in x.items()}
+    if isinstance(x, list):
+        return [_sal_map(v, m) for v in x]
+    return x
+
+
+def tlc_view(evs):
+    """TLC's integers are 32-bit.  The specifications only compare saliences with each other, so a session that uses
+    saliences beyond that range is shown to TLC with every salience replaced by its rank among the session's saliences
+    (order and equality preserved); reports keep the recorded values."""
+    acc = set()
+    _sal_collect(evs, acc)
+    if all(abs(v) < 2 ** 30 for v in acc):
+        return evs
+    m = {v: i for i, v in enumerate(sorted(acc))}
+    return _sal_map(evs, m)
+
+
 def validate_traces(run, module, cfg, traces_path, chunks=None, timeout=1800):
     """Validates all sessions of traces_path with the deterministic trace spec
     (TraceSkip resumes after a rejected session).  Returns (n_sessions, n_events,
@@ -407,7 +439,7 @@ def validate_traces(run, module, cfg, traces_path, chunks=None, timeout=1800):
         part = part + [(-1, [{"ev": "session", "id": -1}])]
         with open(os.path.join(d, "trace.ndjson"), "w") as f:
             for sid, evs in part:
-                for e in evs:
+                for e in tlc_view(evs):
                     f.write(json.dumps(e, sort_keys=True) + "\n")
         jobs.append((part, d))
     import concurrent.futures as cf
